@@ -323,6 +323,22 @@ def _xyt(case):
     ok, S = c.lib("SO2(theta)", L.SO2, th * k, unit=unit)
     if ok:
         c.eq("SO2(theta)/value", S.A, refs.rot2(th), 1e-9)
+    # objects holding several values: each extracted angle rebuilds its element, degrees = radians * 180/pi
+    ths = [th, -th / 2.0, th / 3.0 + 0.1]
+    for cname, obj in (("SO2[M]", L.SO2([refs.rot2(a) for a in ths], check=False)),
+                       ("SE2[M]", L.SE2([refs.rt(refs.rot2(a), [x, y]) for a in ths], check=False))):
+        ok1, t_rad = c.lib(cname + ".theta", obj.theta)
+        ok2, t_deg = c.lib(cname + ".theta/deg", obj.theta, unit="deg")
+        if ok1 and c.true(cname + ".theta/len", len(t_rad) == 3, "theta() of three values returned %r" % (t_rad,)):
+            for a, got in zip(ths, t_rad):
+                c.eq(cname + ".theta/rebuild", refs.rot2(float(got)), refs.rot2(a), 1e-6)
+            if ok2 and len(t_deg) == 3:
+                c.eq(cname + ".theta/deg=rad*180/pi", np.asarray(t_deg, dtype=float), np.asarray(t_rad, dtype=float) * D, 1e-9, 180.0)
+    ok, xs = c.lib("SE2[M].xyt", L.SE2([refs.rt(refs.rot2(a), [x, y]) for a in ths], check=False).xyt)
+    if ok and c.true("SE2[M].xyt/len", len(xs) == 3, "xyt() of three values returned %r" % (xs,)):
+        for a, got in zip(ths, xs):
+            got = np.asarray(got, dtype=float)
+            c.eq("SE2[M].xyt/rebuild", refs.rt(refs.rot2(got[2]), got[:2]), refs.rt(refs.rot2(a), [x, y]), 1e-6, sc)
     return c.out
 
 
